@@ -44,6 +44,9 @@ var files = []fileDef{
 	{"d1", "y1.json", K1, []string{"y"}},
 	{"d1", "y2.json", K1, []string{"y"}},
 	{"d1", "y3.json", K1, []string{"y"}}, // y: a three-way conflict (x: two-way)
+	// b of f1.json conflicts with this file: f1.json has an error entry of its own, and its other
+	// device a must resolve all the same
+	{"d1", "b2.json", K1, []string{"b"}},
 }
 
 // token -> device string and whether the model says it resolves
